@@ -132,14 +132,20 @@ def classes() -> List[Any]:
     return _CLS['p']
 
 
-def flags_for(order: Tuple[int, ...], auth: bool, pool: bool = False) -> Any:
-    key = (order, auth, pool)
+# --enable-proxy-protocol: valid HAProxy v1 lines a load balancer may put ahead of the first request (incl. the address-less
+# UNKNOWN form); the hook semantics are the same with or without one
+PP_OK = [b'PROXY TCP4 192.0.2.1 192.0.2.2 56324 443\r\n', b'PROXY TCP6 2001:db8::1 2001:db8::2 1 65535\r\n', b'PROXY UNKNOWN\r\n',
+         b'PROXY UNKNOWN ffff::1 ffff::2 65535 65535\r\n']
+
+
+def flags_for(order: Tuple[int, ...], auth: bool, pool: bool = False, pp: bool = False) -> Any:
+    key = (order, auth, pool, pp)
     if key not in _FLAGS:
         cl = classes()
         opts: Dict[str, Any] = {'plugins': [cl[i] for i in order]}
         if auth:
             opts['basic_auth'] = 'user:pass'
-        _FLAGS[key] = K.make_flags(['--threadless'] + (['--enable-conn-pool'] if pool else []), **opts)
+        _FLAGS[key] = K.make_flags(['--threadless'] + (['--enable-conn-pool'] if pool else []) + (['--enable-proxy-protocol'] if pp else []), **opts)
     return _FLAGS[key]
 
 
@@ -264,13 +270,15 @@ def run_case(c: Dict[str, Any]) -> Dict[str, Any]:
     BEHAV.update({int(k_): v for k_, v in c['behaviour'].items()})
     REJ.clear()
     REJ.update(c['reject'])
-    flags = flags_for(tuple(c['order']), c['auth'], bool(c.get('pool')))
+    flags = flags_for(tuple(c['order']), c['auth'], bool(c.get('pool')), c.get('pp') is not None)
     w = K.World(flags, max_iters=20000)
     auth = b'Proxy-Authorization: Basic dXNlcjpwYXNz\r\n' if c['auth'] else b''
     if c.get('connect'):
         req = b'CONNECT example.test:443 HTTP/1.1\r\nHost: example.test:443\r\n' + auth + b'\r\n'
     else:
         req = b'GET http://example.test/x HTTP/1.1\r\nHost: example.test\r\n' + auth + b'\r\n'
+    if c.get('pp') is not None:
+        req = PP_OK[c['pp'] % len(PP_OK)] + req
     reqs = [(req, c['cuts'])]
     if second_effective(c):
         reqs.append((b'GET http://example.test/second HTTP/1.1\r\nHost: example.test\r\n' + auth + b'\r\n', []))
@@ -472,6 +480,7 @@ def cases(draw: Any) -> Dict[str, Any]:
          'shutdown_raises': draw(st.integers(0, 3)) == 0,
          'pool': draw(st.integers(0, 3)) == 0,
          'connect': draw(st.integers(0, 3)) == 0,
+         'pp': draw(st.integers(0, len(PP_OK) - 1)) if draw(st.integers(0, 4)) == 0 else None,
          'second': True if followup_focus else draw(st.booleans()),
          'schedule': draw(st.lists(st.integers(0, 2), max_size=25))}
     return c
@@ -486,7 +495,7 @@ def run_shard(spec: Dict[str, Any], seed: int, acc: Any) -> None:
     def chk(c: Dict[str, Any]) -> List[Any]:
         vs, info = evaluate(c)
         labs = ['outcome:' + info['outcome'], 'plugins:%d' % info['plugins'], 'ending:' + ('abort' if info['abort'] else c['ending']),
-                'requests:%d' % (2 if second_effective(c) else 1)] + (['own-shutdown-raises'] if c.get('shutdown_raises') else []) + (['conn-pool'] if c.get('pool') else []) + (['method:CONNECT'] if c.get('connect') else [])
+                'requests:%d' % (2 if second_effective(c) else 1)] + (['own-shutdown-raises'] if c.get('shutdown_raises') else []) + (['conn-pool'] if c.get('pool') else []) + (['method:CONNECT'] if c.get('connect') else []) + (['proxy-protocol-line:%d' % c['pp']] if c.get('pp') is not None else [])
         if info.get('inconclusive') or info.get('dontcare'):
             acc.dontcare += 1
         acc.case(c, (info['plugins'] >= 2 and info['nonpass'] >= 1) or info['abort'], labels=labs)
